@@ -4,7 +4,9 @@ the tree, symbolically executed, and emitted as Lean definitions over `TTV.Resul
 hand-written model's operations equal to the generated ones, so an edit of the source that changes the arithmetic breaks a proof.
 
 Supported statements: `a, b = c` (tuple unpacking of a parameter), `x = set(e)` / `x = e`, `x.update(e)`, `x.difference_update(e)`,
-`return e | (e1, e2) | self.get_current_tags()`; expressions: names, `self._tags`, `e[0]`, `e[1]`, `set(e)`, `e or ()`.
+`return e | (e1, e2) | self.get_current_tags()`; expressions: names, `self._tags`, `e[0]`, `e[1]`, `set(e)`, `e or ()`; and, for
+`StreamTagger.status` only, the one conditional that decides when `None` is handed on instead of the computed set:
+`if <supplied> is None and not <set>: <set> = None` (recorded as a rule next to the set term, see `none_rule`).
 Anything else raises (the tie is then reported as broken).
 """
 import ast, os
@@ -33,6 +35,8 @@ class Sym:
     def __init__(self, params):
         self.env = dict(params)           # python lvalue text -> Lean term
         self.alias = {}                   # local name -> the lvalue it is another name for (`tags = self._tags`: no copy)
+        self.none_rule = 'never'          # when the result is None instead of the set: never | whenEmpty | whenEmptyAndNotSupplied
+        self.noned = None                 # (variable, its set term) of `if supplied is None and not x: x = None`
 
     def root(self, key):
         while key in self.alias:
@@ -82,7 +86,15 @@ class Sym:
                     v = st.value
                     if isinstance(v, ast.BoolOp) and isinstance(v.op, ast.Or) and ast.unparse(v.values[1]) == 'None':
                         v = v.values[0]
+                        if self.noned is not None:
+                            raise Unsupported('two rules for None')
+                        self.none_rule = 'whenEmpty'
                     self.env['__out__'] = self.expr(v)
+                    if self.noned is not None:
+                        # the conditional spoke about exactly the value that is handed on, as it is now
+                        if not (isinstance(v, ast.Name) and self.root(v.id) == self.noned[0] and self.env['__out__'] == self.noned[1]):
+                            raise Unsupported('the None rule is not about the forwarded value')
+                        self.none_rule = 'whenEmptyAndNotSupplied'
                 elif isinstance(t, ast.Name) and isinstance(st.value, (ast.Name, ast.Attribute)) and self.root(ast.unparse(st.value)) in self.env:
                     self.alias[t.id] = self.root(ast.unparse(st.value))      # another name for the same (mutable) set
                 else:
@@ -98,6 +110,20 @@ class Sym:
                     continue
                 if result_of and ast.unparse(st.value.func) == result_of[1]:
                     return self.env['__out__']                  # the forwarding call ends the function
+            if result_of and isinstance(st, ast.If) and not st.orelse and self.noned is None and '__out__' not in self.env:
+                # if <supplied> is None and not <x>: <x> = None        (either order of the two tests)
+                t = st.test
+                if isinstance(t, ast.BoolOp) and isinstance(t.op, ast.And) and len(t.values) == 2 and len(st.body) == 1:
+                    tests = {('none' if isinstance(c, ast.Compare) else 'empty'): c for c in t.values}
+                    c, e = tests.get('none'), tests.get('empty')
+                    b = st.body[0]
+                    if c is not None and e is not None and len(c.ops) == 1 and isinstance(c.ops[0], ast.Is) and ast.unparse(c.comparators[0]) == 'None' \
+                            and isinstance(c.left, ast.Name) and self.expr(c.left) == self.env.get(result_of[2]) \
+                            and isinstance(e, ast.UnaryOp) and isinstance(e.op, ast.Not) and isinstance(e.operand, ast.Name) \
+                            and isinstance(b, ast.Assign) and len(b.targets) == 1 and isinstance(b.targets[0], ast.Name) \
+                            and b.targets[0].id == e.operand.id and ast.unparse(b.value) == 'None' and self.root(e.operand.id) in self.env:
+                        self.noned = (self.root(e.operand.id), self.env[self.root(e.operand.id)])
+                        continue
             if isinstance(st, ast.Return):
                 if isinstance(st.value, ast.Call) and ast.unparse(st.value.func) == 'self.get_current_tags':
                     return self.env['self._tags']
@@ -115,8 +141,12 @@ def translate(repo):
     merge = find_function(real_src, '_merge_tags')
     t2 = Sym({'existing': 'existing', 'changed': 'changed'}).run(merge.body)
     tagger = find_function(real_src, 'StreamTagger.status')
-    t3 = Sym({'"test_tags"': 'tags', "'test_tags'": 'tags', 'self.add': 'add', 'self.discard': 'discard'}).run(
-        tagger.body, result_of=("kwargs['test_tags']", 'super().status'))
+    sym3 = Sym({'"test_tags"': 'tags', "'test_tags'": 'tags', 'self.add': 'add', 'self.discard': 'discard'})
+    t3 = sym3.run(tagger.body, result_of=("kwargs['test_tags']", 'super().status', "'test_tags'"))
+    if sym3.noned is not None and sym3.none_rule != 'whenEmptyAndNotSupplied':
+        raise Unsupported('a None rule that does not reach the forwarded value')
+    t3_out = {'never': 'some (T)', 'whenEmpty': 'if (T).isEmpty then none else some (T)',
+              'whenEmptyAndNotSupplied': 'if supplied.isNone && (T).isEmpty then none else some (T)'}[sym3.none_rule].replace('T', t3)
     c17 = '''import TTV.Model.Result
 /-! GENERATED by harness/pyset2lean.py from testtools/tags.py and testtools/testresult/real.py — do not edit.
 The tag arithmetic of the code, translated statement by statement (symbolic execution of the straight-line set code). -/
@@ -140,11 +170,16 @@ def union (a b : List Nat) : List Nat := a ++ b
 def diff (a b : List Nat) : List Nat := a.filter fun x => !b.contains x
 end TagSet
 
-/-- `StreamTagger.status`: the tag set forwarded (before `or None`) for incoming tags `tags` (`None` = empty), `self.add`, `self.discard` -/
+/-- `StreamTagger.status`: the set computed for incoming tags `tags` (`None` read as empty), `self.add`, `self.discard` -/
 def taggerTags_src (tags add discard : List Nat) : List Nat := %s
 
+/-- `StreamTagger.status`: the `test_tags` handed on (`none` = `None`) for the supplied `test_tags` -/
+def taggerOut_src (supplied : Option (List Nat)) (add discard : List Nat) : Option (List Nat) :=
+  let tags := supplied.getD []
+  %s
+
 end TTV.Generated.C11
-''' % t3
+''' % (t3, t3_out)
     return {'TTV/Generated/C17.lean': c17, 'TTV/Generated/C11.lean': c11}
 
 
